@@ -29,7 +29,7 @@ CHECKS = {
         'technique': 'exhaustive grid + Hypothesis-drawn pairs against exact rational comparison and algebraic laws',
     },
     'C11': {
-        'text': 'Hypothesis-generated cell blocks (all content kinds) and argument lists (areas, whole columns, other sheets, cells, literals, re-split areas, embedded calls) for SUM/AVERAGE/MIN/MAX/COUNT/COUNTBLANK/AND/OR, the same texts on a second sheet, totals over a column of row-subtotal formulas, compared with an independent fold over the generator\'s content map',
+        'text': 'Hypothesis-generated cell blocks (all content kinds) and argument lists (areas, whole columns, other sheets, cells, literals, re-split areas, embedded calls) for SUM/AVERAGE/MIN/MAX/COUNT/COUNTBLANK/AND/OR, the same texts on a second sheet, a data-only third sheet whose areas reach beyond its used range, contents planted through set_cells after translation (also into blank cells and below whole columns; every second executor has a past of other overrides and evaluations), totals over a column of row-subtotal formulas, compared with an independent fold over the generator\'s content map',
         'note': 'trusted: the generator\'s content map and fold (vf/props/c11.py); dates only under COUNT/COUNTBLANK, AND/OR without text/blank, empty AVERAGE/MIN/MAX not asserted',
         'technique': 'Hypothesis structured generation vs independent fold (reference model) + metamorphic re-splitting',
     },
@@ -44,7 +44,7 @@ CHECKS = {
         'technique': 'Hypothesis ASTs x exhaustive truth assignments vs lazy reference evaluator',
     },
     'C14': {
-        'text': 'Hypothesis tables (ascending/unsorted/duplicate/text/blank keys, width 1-4) with VLOOKUP exact/approximate/omitted, MATCH 0/1/omitted, XMATCH from start/end and binary over ascending keys, mixed-case text keys, INDEX over every (r,c) around the area, INDEX(MATCH), COLUMN; ADDRESS exhaustively over all 16384 columns x sampled rows; oracle = independent linear search / direct indexing / bijective base-26',
+        'text': 'Hypothesis tables (ascending/unsorted/duplicate/text/blank keys, width 1-4) with VLOOKUP exact/approximate/omitted, MATCH 0/1/omitted, XMATCH from start/end and binary over ascending keys, mixed-case text keys, INDEX over every (r,c) around the area, INDEX(MATCH), COLUMN, the same unqualified texts on a twin sheet with other payload; ADDRESS exhaustively over all 16384 columns x sampled rows; oracle = independent linear search / direct indexing / bijective base-26',
         'note': 'trusted: vf/props/c14.py oracles; approximate matching only on ascending numeric keys; 0-index INDEX and binary XMATCH modes not asserted',
         'technique': 'Hypothesis + boundary construction vs reference search; exhaustive ADDRESS sweep',
     },
@@ -79,7 +79,7 @@ CHECKS = {
         'technique': 'Hypothesis stateful (model-based) testing; metamorphic oracle override == edit-and-retranslate; hash-seed matrix',
     },
     'C08': {
-        'text': 'Hypothesis RuleBasedStateMachine: generated workbook (total formulas, 1-3 sheets, sparse layout, optional override set) + histories of <= 30 get_cell / get_cells / get_sheet calls with numeric, A1-style, title-or-index addressing, fresh and re-used Cell objects, a second Executor on the same class queried in between (expectation from a second translation), digit-only sheet titles; every returned value vs a value table computed once with one fresh Executor per cell and cross-checked against the reference evaluator; grid shape = used range extended by overrides; sheet sizes and overrides unchanged by queries',
+        'text': 'Hypothesis RuleBasedStateMachine: generated workbook (total formulas, 1-3 sheets, sparse layout, optional override set) + histories of <= 30 get_cell / get_cells / get_sheet calls with numeric, A1-style, title-or-index addressing, fresh and re-used Cell objects, a second Executor on the same class queried in between (expectation from a second translation), digit-only sheet titles, overrides replaced in the middle of the history (same cell again, equal value of another type, cells beyond the used range, the very Cell objects that queries returned) with the value table recomputed from the overrides that hold then; every returned value vs a value table computed once with one fresh Executor per cell and cross-checked against the reference evaluator; grid shape = used range extended by overrides; sheet sizes and overrides unchanged by queries',
         'note': 'trusted: value table + vf/ref/formula.py; formulas from a total sub-grammar; COLUMN over multi-column areas excluded',
         'technique': 'Hypothesis stateful (model-based) testing vs value-table model; API/addressing metamorphic agreement',
     },
@@ -89,7 +89,7 @@ CHECKS = {
         'technique': 'Hypothesis stateful testing vs fresh-instance reference; process / hash-seed / thread differential on sha256; generated thread schedules',
     },
     'C18': {
-        'text': 'Hypothesis workbooks of 1-5 sheets (some empty), sparse cells with empty rows/columns inside the used range, first used cell away from A1, far cells (row <= 3000, column <= 400), stale <dimension> records, values int / float / bool / text (printable + unicode) / date / date-time / formulas / ArrayFormula; every planted coordinate, its eight neighbours, the used-range corners and sampled blanks queried through Executor.get_cell on the class object and on the file-loaded class; get_titles / get_sheets_size vs the model',
+        'text': 'Hypothesis workbooks of 1-5 sheets (some empty), sparse cells with empty rows/columns inside the used range, first used cell away from A1, far cells (row <= 3000, column <= 400), stale <dimension> records, values int / float / bool / text (printable + unicode) / date / date-time / formulas / ArrayFormula; every planted coordinate, its eight neighbours, the used-range corners and sampled blanks queried through Executor.get_cell on the class object and on the file-loaded class; get_titles / get_sheets_size vs the model, asked again of new instances after another executor on the class was given a cell beyond the used range; one Parser that kept its entry cell while it was moved from a decoy workbook (same title at another index) to the generated one',
         'note': 'trusted: generator cell map normalised by xlsx storage rules, cross-checked against openpyxl\'s ordinary reader (disagreement = harness error); values restricted to what survives openpyxl itself',
         'technique': 'Hypothesis structured generation vs cell-map reference model (round trip through xlsx)',
     },
@@ -104,7 +104,7 @@ CHECKS = {
         'technique': 'Hypothesis grammar-based generation + token/character mutation fuzzing vs independent recogniser (differential accept/reject), reference evaluator and metamorphic whitespace / separator relations',
     },
     'C06': {
-        'text': 'Hypothesis workbooks (1-4 sheets, titles and texts from hostile alphabets: quotes, backslashes, newlines, braces, format fields, %, unicode; constants of every type openpyxl writes incl. huge / tiny / infinite numbers, dates, times, durations, error strings, ArrayFormula; valid formulas of the whole supported grammar; in the adversarial lane malformed / unsupported / truncated / token-soup formulas, missing sheets, row-0 and over-long references, cycles) translated whole-file and through every formula cell as entry point; a list of ~130 hand-picked hostile formulas; 17 size-parameterised families (bracket depth 40, nested SUM / IF / mixed calls, operator / sign / & chains, argument counts, forward and backward reference chains across cells, long literals, wide areas).  Outcome must be a library exception or text that compiles, loads, reports the titles and sizes of the workbook, has one callable member per non-blank cell, evaluates without NameError / SyntaxError, gives the stored value for constants and the same outcome through Executor(class_file=...) and Executor(class_object=...); one Parser walked over the entry cells (retry after a failure, write_translation to one file); a deterministic work counter (calls into the repository under sys.setprofile) must grow by less than x1.7 per size step; seven families whose work sits inside regular expressions (quoted titles up to 31 characters, runs of spaces / quotes / $ / letters) are timed in killable child processes',
+        'text': 'Hypothesis workbooks (1-4 sheets, titles and texts from hostile alphabets: quotes, backslashes, newlines, braces, format fields, %, unicode; constants of every type openpyxl writes incl. huge / tiny / infinite numbers, dates, times, durations, error strings, ArrayFormula; valid formulas of the whole supported grammar; in the adversarial lane malformed / unsupported / truncated / token-soup formulas, missing sheets, row-0 and over-long references, cycles) translated whole-file and through every formula cell as entry point; a list of ~130 hand-picked hostile formulas; 17 size-parameterised families (bracket depth 40, nested SUM / IF / mixed calls, operator / sign / & chains, argument counts, forward and backward reference chains across cells, long literals, wide areas).  Outcome must be a library exception or text that compiles, loads, reports the titles and sizes of the workbook, has one callable member per non-blank cell, evaluates without NameError / SyntaxError, gives the stored value for constants and the same outcome through Executor(class_file=...) and Executor(class_object=...); one Parser walked over the entry cells (retry after a failure, write_translation to one file); a deterministic work counter (calls into the repository under sys.setprofile) must grow by less than x1.7 per size step; seven families whose work sits inside regular expressions (quoted titles up to 31 characters, runs of spaces / quotes / $ / letters) are timed (processor time) in killable child processes',
         'note': 'trusted: python compile / exec, openpyxl as the judge of what a file holds; evaluation errors of a formula are not judged (only NameError / SyntaxError / UnboundLocalError); an alarm that fires is inconclusive - non-termination is represented only by the work-growth bound on the families',
         'technique': 'Hypothesis structured + adversarial workbook fuzzing with outcome classification; size-parameterised families with a deterministic work counter',
     },
